@@ -26,6 +26,8 @@ WALL_BUDGET = {"quick": 900, "thorough": 3 * 3600}
 def jobs(tier, seed):
     out = [('cut', ident, tier, seed) for ident in structs.all_identities() if structs.wellformed(ident)]
     out += [('free', ident, tier, seed) for ident in structs.all_identities() if structs.wellformed(ident)]
+    ids = [i for i in structs.all_identities() if structs.wellformed(i)]
+    out += [('hist', ids[i:i + 12], tier, seed) for i in range(0, len(ids), 12)]
     return out
 
 
@@ -135,10 +137,59 @@ def run_free(ident, tier, seed, res):
     res.count('free_lengths', len(lengths))
 
 
+def run_hist(ids, tier, seed, res):
+    """a complete message of the type parsed first, then a truncated one of the same type in the same process: must still be rejected"""
+    from pyrtcm.rtcmmessage import RTCMMessage
+    for ident in ids:
+        st = structs.structures(ident, 'quick', seed)
+        st = st[1] if len(st) > 1 else st[0]
+        try:
+            d0 = msgdrv.Directed(ident, structs.chooser(st), spare=0, pname="a")
+        except ol.BadDefinition:
+            continue
+        minlen = 3 if ident.startswith("4076") else 2
+        cuts = sorted({d0.need - 1, max(minlen, d0.need - 3), max(minlen, d0.need // 2), minlen})
+        for cut in cuts:
+            if cut >= d0.need:
+                continue
+            dfull = msgdrv.Directed(ident, structs.chooser(st), spare=0, pname="a")
+            dcut = msgdrv.Directed(ident, structs.chooser(st), length=cut, pname="p")
+            eng = sym.Engine(max_paths=32, conc_limit=8)
+            H = {}
+
+            def fn():
+                pa = dfull.build(eng)
+                H['pa'] = pa
+                RTCMMessage(payload=pa)
+                return RTCMMessage(payload=dcut.build(eng))
+            for path in eng.explore(fn):
+                if path.kind == 'abort':
+                    continue
+                res['obligations'] += 1
+                if path.kind == 'exc':
+                    res['discharged'] += 1
+                elif path.kind == 'ret':
+                    res['refuted'] += 1
+                    if eng.check3() == 'sat':
+                        m = eng.solver.model()
+                        res['cex'].append({'kind': 'construct', 'history': [dfull.payload_from_model(m).hex()], 'payload': dcut.payload_from_model(m).hex(),
+                                           'checks': ['overrun'], 'ident': ident, 'why': f"{ident}: truncated to {cut} bytes accepted after a complete message of the same type",
+                                           'dedup': f"hist:{ident}"})
+                else:
+                    res['obligations'] -= 1
+                    res['inconclusive'].append(f"hist {ident} cut {cut}: {path.kind} {str(path.value)[:60]}")
+            res.absorb_engine(eng)
+            res.count('hist_cuts')
+
+
 def run_job(spec):
     mode, ident, tier, seed = spec
     msgdrv.install()
-    res = JobResult(f"{mode}:{ident}")
+    res = JobResult(f"{mode}:{ident if isinstance(ident, str) else ident[0]}")
+    if mode == 'hist':
+        run_hist(ident, tier, seed, res)
+        res['samples'].append({'history_truncation': ident[:3]})
+        return res
     if mode == 'cut':
         run_cut(ident, tier, seed, res)
     else:
